@@ -30,8 +30,14 @@ extern int simk_passthrough;          /* 1: real time/blocking, log only */
 void tr(const char *fmt, ...) __attribute__((format(printf, 1, 2)));
 void tr_flush(void);
 void tr_open(int fd);
-/* seconds are clamped to what a 32-bit TLC integer holds: "far future" stays far future */
-#define TS(x) (long long)((x) < 0 ? -1 : ((x) / NSEC > 2147483647LL ? 2147483647LL : (x) / NSEC)), (long long)((x) < 0 ? 0 : (x) % NSEC)
+/* TLC integers are 32-bit and the monitors add times: absolute seconds are clamped to TS_CAP ("far
+ * future" stays far future), relative ones (TSREL) so that now + interval stays within the cap; the
+ * virtual clock never passes VBASE + SIMK_HORIZON */
+#define TS_CAP 1000000000LL
+#define SIMK_HORIZON (100000000LL * NSEC)
+#define TS(x) (long long)((x) < 0 ? -1 : ((x) / NSEC >= TS_CAP ? TS_CAP : (x) / NSEC)), (long long)((x) < 0 || (x) / NSEC >= TS_CAP ? 0 : (x) % NSEC)
+#define TSREL_(x, now) ((x) >= 0 && (now) + (x) >= TS_CAP * NSEC ? TS_CAP * NSEC - (now) : (x))
+#define TSREL(x, now) TS(TSREL_(x, now))
 
 /* faults: the nth (1-based) call of `call` fails with errno; from!=0: every
  * call from the nth on */
